@@ -482,6 +482,14 @@ impl Command for EndFunctionCommand {
                 {
                     let next_line = call_info.call_line + 1;
 
+                    // the call ends without a value, same as a bare return
+                    match call_info.output_variable {
+                        Some(ref name) => {
+                            context.variables.remove(name);
+                        }
+                        None => (),
+                    };
+
                     if call_info.scoped {
                         match scope::pop(context.variables, context.state, &vec![]) {
                             Err(error) => return CommandResult::Error(error),
